@@ -214,6 +214,14 @@ def run(ctx, repo, tier):
             ok = not any(o in ("mult", "div", "add", "sub", "pow") for o in inner_ops)
         ctx.check(ok, "COEF", f"{tag}.x10", f"{name} branch: values are multiplied by 10 exactly once and not otherwise rescaled", where,
                   "self.trans_grid = self.trans_grid * NM2ANGSTROM", witness=vstr(tg)[:300], derived=vstr(tg)[:200])
+        lossy = [o for o in inner_ops if o in ("round", "m.round", "floor", "ceil", "trunc", "rint", "fix", "around", "digitize", "floor_divide")]
+        ctx.instance("COEF")
+        if ok and lossy:
+            ctx.violate("COEF", f"{tag}.exact", f"{name} branch: the requested distances are quantised ({', '.join(lossy)}) before they are "
+                        "converted: radii that need more digits are silently moved, increments and shell boundaries follow", where,
+                        "self.trans_grid = ...", witness=vstr(tg)[:200])
+        elif ok:
+            ctx.ok("COEF", f"{tag}.exact", f"{name} branch: no rounding / quantisation between the parsed input and the converted grid", where)
         # dispatch reaches the right constructor
         exp_op = {"literal": "literal_eval", "linspace": "linspace", "range": "arange"}[name]
         ctx.check(exp_op in inner_ops, "DISPATCH", f"{tag}.ctor", f"{name} branch builds the grid with {exp_op}", where,
